@@ -770,6 +770,21 @@ func C08(c *core.Ctx) {
 				_, ok := core.IsCall(x, core.CalleeID{Pkg: "fw/table", Recv: "RibEntry", Name: "pruneIfEmpty"})
 				return ok
 			}, nil)
+			if !fr.OK {
+				// the removal sits in a walk over the subtree: the pruning may follow the
+				// walk, as a second walk from the same node that prunes every node it visits
+				if site := treeWalkSite(p, in.Parent()); site != nil {
+					walkRecv, _ := core.CallArgs(site.Common())
+					fr = core.MustFollowDeep(core.RootOf(site.Parent()), core.After(site), func(x ssa.Instruction) bool {
+						ci, ok := x.(ssa.CallInstruction)
+						if !ok || !prunesSubtree(p, ci.Common().StaticCallee()) {
+							return false
+						}
+						rv, _ := core.CallArgs(ci.Common())
+						return walkRecv != nil && core.Same(rv, walkRecv)
+					}, nil)
+				}
+			}
 			c.Decide(fr.OK, "R8.5", "rib-removal-prunes:"+m, c.Pos(in), "route removal is followed by pruneIfEmpty", "a RIB route is removed without pruning the entry")
 		})
 		c.Floor("R8.5", "route-removal stores in RIB removal function "+m, n, 1)
